@@ -22,6 +22,8 @@ enum V {
     Bool(bool),
     Nil,
     Str(String),
+    /// a string built at run time and held in the variable `s<idx>` (contents known to the generator)
+    Dyn(usize, String),
     Arr(Vec<V>),
     Tup(Vec<V>),
     Some(Box<V>),
@@ -62,17 +64,22 @@ fn escape(s: &str) -> String {
 impl V {
     /// Abra expression
     fn src(&self) -> String {
+        self.src_with("s")
+    }
+    /// Abra expression; run-time-built strings are referred to through the variables `<prefix><idx>`
+    fn src_with(&self, p: &str) -> String {
         match self {
             V::Int(n) => n.to_string(),
             V::Bool(b) => b.to_string(),
             V::Nil => "nil".into(),
             V::Str(s) => format!("\"{}\"", escape(s)),
-            V::Arr(xs) => format!("[{}]", xs.iter().map(|x| x.src()).collect::<Vec<_>>().join(", ")),
-            V::Tup(xs) => format!("({})", xs.iter().map(|x| x.src()).collect::<Vec<_>>().join(", ")),
-            V::Some(x) => format!("option.some({})", x.src()),
+            V::Dyn(i, _) => format!("{p}{i}"),
+            V::Arr(xs) => format!("[{}]", xs.iter().map(|x| x.src_with(p)).collect::<Vec<_>>().join(", ")),
+            V::Tup(xs) => format!("({})", xs.iter().map(|x| x.src_with(p)).collect::<Vec<_>>().join(", ")),
+            V::Some(x) => format!("option.some({})", x.src_with(p)),
             V::None => "option.none".into(),
-            V::Ok(x) => format!("result.ok({})", x.src()),
-            V::Err(x) => format!("result.err({})", x.src()),
+            V::Ok(x) => format!("result.ok({})", x.src_with(p)),
+            V::Err(x) => format!("result.err({})", x.src_with(p)),
         }
     }
     /// request tokens for the Lean driver
@@ -81,7 +88,7 @@ impl V {
             V::Int(n) => format!("I {n}"),
             V::Bool(b) => format!("B {}", if *b { "T" } else { "F" }),
             V::Nil => "N".into(),
-            V::Str(s) => format!("S {}", hex(s.as_bytes())),
+            V::Str(s) | V::Dyn(_, s) => format!("S {}", hex(s.as_bytes())),
             V::Arr(xs) => {
                 let mut s = format!("A {}", xs.len());
                 for x in xs {
@@ -111,7 +118,7 @@ impl V {
             V::Int(n) => n.to_string(),
             V::Bool(b) => if *b { "true".into() } else { "false".into() },
             V::Nil => "nil".into(),
-            V::Str(s) => s.clone(),
+            V::Str(s) | V::Dyn(_, s) => s.clone(),
             V::Arr(xs) => format!("[ {} ]", xs.iter().map(|x| x.render()).collect::<Vec<_>>().join(", ")),
             V::Tup(xs) => format!("({})", xs.iter().map(|x| x.render()).collect::<Vec<_>>().join(", ")),
             V::Some(x) => format!("some({})", x.render()),
@@ -133,6 +140,7 @@ impl V {
             V::Bool(_) => hist.push("leaf:bool"),
             V::Nil => hist.push("leaf:nil"),
             V::Str(s) => hist.push(if s.is_empty() { "leaf:string-empty" } else { "leaf:string" }),
+            V::Dyn(..) => hist.push("leaf:string-built-at-run-time"),
             V::Arr(xs) => {
                 hist.push(match xs.len() { 0 => "array:empty", 1 => "array:one", _ => "array:many" });
                 xs.iter().for_each(|x| x.count(hist));
@@ -183,6 +191,190 @@ fn gen_val(rng: &mut Rng, ty: &Ty, budget: &mut i64) -> V {
         Ty::Opt(t) => if rng.chance(1, 3) { V::None } else { V::Some(Box::new(gen_val(rng, t, budget))) },
         Ty::Res(t, e) => if rng.chance(1, 2) { V::Ok(Box::new(gen_val(rng, t, budget))) } else { V::Err(Box::new(gen_val(rng, e, budget))) },
     }
+}
+
+// ---------------------------------------------------------------- rendering must be pure
+fn ty_has_str(t: &Ty) -> bool {
+    match t {
+        Ty::Str => true,
+        Ty::Arr(t) | Ty::Opt(t) => ty_has_str(t),
+        Ty::Tup(ts) => ts.iter().any(ty_has_str),
+        Ty::Res(a, b) => ty_has_str(a) || ty_has_str(b),
+        _ => false,
+    }
+}
+/// the prelude implements `Equal` for scalars, strings, arrays and tuples (not for option / result)
+fn ty_has_equal(t: &Ty) -> bool {
+    match t {
+        Ty::Arr(t) => ty_has_equal(t),
+        Ty::Tup(ts) => ts.iter().all(ty_has_equal),
+        Ty::Opt(_) | Ty::Res(..) => false,
+        _ => true,
+    }
+}
+/// like `gen_val`, but string leaves are mostly the run-time-built strings `dyns` (so the same string object
+/// occurs several times in one value and in several values); arrays of strings are never empty
+fn gen_val_dyn(rng: &mut Rng, ty: &Ty, budget: &mut i64, dyns: &[String]) -> V {
+    *budget -= 1;
+    match ty {
+        Ty::Str => {
+            if rng.chance(4, 5) {
+                let i = rng.below(dyns.len() as u64) as usize;
+                V::Dyn(i, dyns[i].clone())
+            } else {
+                V::Str((*rng.pick(&STRS)).to_string())
+            }
+        }
+        Ty::Arr(t) => {
+            let n = if *budget <= 0 { 1 } else { *rng.pick(&[1usize, 2, 2, 3, 3, 4]) };
+            V::Arr((0..n).map(|_| gen_val_dyn(rng, t, budget, dyns)).collect())
+        }
+        Ty::Tup(ts) => V::Tup(ts.iter().map(|t| gen_val_dyn(rng, t, budget, dyns)).collect()),
+        Ty::Opt(t) => if rng.chance(1, 5) { V::None } else { V::Some(Box::new(gen_val_dyn(rng, t, budget, dyns))) },
+        Ty::Res(t, e) => if rng.chance(1, 2) { V::Ok(Box::new(gen_val_dyn(rng, t, budget, dyns))) } else { V::Err(Box::new(gen_val_dyn(rng, e, budget, dyns))) },
+        other => gen_val(rng, other, budget),
+    }
+}
+
+/// One program that builds strings at run time (results of `..`, int and bool conversions, strings built from
+/// other run-time strings), shares them inside and between values (array elements, tuple components,
+/// option/result payloads, struct fields), renders every value several times by different routes and finally
+/// compares everything with separately built equal values.  Every statement must print the documented text of
+/// its operands, whatever was rendered before.
+fn purity_job(rng: &mut Rng, max_depth: usize) -> Job {
+    // run-time-built strings: (expression over the earlier ones with a prefix placeholder `@`, contents)
+    let mut defs: Vec<(String, String)> = vec![];
+    let n_dyn = 2 + rng.below(3) as usize;
+    for i in 0..n_dyn {
+        let kind = if i == 0 { rng.below(4) } else { rng.below(7) };
+        let d = match kind {
+            0 => { let n = rng.range(0, 99); (format!("\"id\" .. {n}"), format!("id{n}")) }
+            1 => { let n = *rng.pick(&INTS); (format!("ToString.str({n})"), n.to_string()) }
+            2 => { let (a, b) = (*rng.pick(&["ab", "x", ", ", "[ "]), *rng.pick(&["cd", "", " ]", "y"])); (format!("\"{a}\" .. \"{b}\""), format!("{a}{b}")) }
+            3 => { let b = rng.chance(1, 2); (format!("\"\" .. {b}"), b.to_string()) }
+            4 => { let j = rng.below(i as u64) as usize; (format!("@{j} .. \"-\""), format!("{}-", defs[j].1)) }               // left operand built at run time
+            5 => { let j = rng.below(i as u64) as usize; let k = rng.below(i as u64) as usize; (format!("@{j} .. @{k}"), format!("{}{}", defs[j].1, defs[k].1)) }
+            _ => { let j = rng.below(i as u64) as usize; (format!("\"<\" .. @{j} .. \">\""), format!("<{}>", defs[j].1)) }
+        };
+        defs.push(d);
+    }
+    let dyns: Vec<String> = defs.iter().map(|d| d.1.clone()).collect();
+    let gen_typed = |rng: &mut Rng| -> (Ty, V) {
+        let d0 = 1 + rng.below(max_depth as u64) as usize;
+        let mut ty = gen_ty(rng, d0);
+        for _ in 0..20 {
+            if ty_has_str(&ty) { break; }
+            let d1 = 1 + rng.below(max_depth as u64) as usize;
+            ty = gen_ty(rng, d1);
+        }
+        if !ty_has_str(&ty) { ty = Ty::Arr(Box::new(Ty::Str)); }
+        let mut budget = 14;
+        let v = gen_val_dyn(rng, &ty, &mut budget, &dyns);
+        (ty, v)
+    };
+    let (tv, v) = gen_typed(rng);
+    let (tw, w) = gen_typed(rng);
+    let with_struct = rng.chance(1, 2);
+    let (hi, hj) = (rng.below(n_dyn as u64) as usize, rng.below(n_dyn as u64) as usize);
+    let h_name = V::Dyn(hi, dyns[hi].clone());
+    let h_items = V::Arr(vec![V::Dyn(hi, dyns[hi].clone()), V::Dyn(hj, dyns[hj].clone()), V::Dyn(hi, dyns[hi].clone())]);
+
+    let mut src = String::new();
+    if with_struct {
+        src.push_str("type Holder = {\n  name: string\n  items: array<string>\n}\n");
+    }
+    for p in ["s", "t"] {
+        for (i, (e, _)) in defs.iter().enumerate() {
+            src.push_str(&format!("let {p}{i} = {}\n", e.replace('@', p)));
+        }
+    }
+    src.push_str(&format!("let v: {} = {}\nlet w: {} = {}\n", tv.src(), v.src_with("s"), tw.src(), w.src_with("s")));
+    src.push_str(&format!("let v2: {} = {}\nlet w2: {} = {}\n", tv.src(), v.src_with("t"), tw.src(), w.src_with("t")));
+    if with_struct {
+        src.push_str(&format!("let h = Holder({}, {})\n", h_name.src_with("s"), h_items.src_with("s")));
+    }
+
+    // rendering statements: (Abra statement, model request, documented text)
+    let mut stmts: Vec<(String, String, String)> = vec![];
+    let sep = |stmts: &mut Vec<(String, String, String)>| stmts.push(("print(\"\\n~\\n\")".into(), format!("lit {}", hex(b"\n~\n")), "\n~\n".into()));
+    let render_stmt = |rng: &mut Rng, name: &str, val: &V, other: (&str, &V)| -> (String, String, String) {
+        match rng.below(7) {
+            0 => (format!("println({name})"), format!("println {}", val.req()), val.render() + "\n"),
+            1 => (format!("print({name})"), format!("print {}", val.req()), val.render()),
+            2 => (format!("print(ToString.str({name}))"), format!("str {}", val.req()), val.render()),
+            3 => (format!("print(\"<\" .. {name} .. \">\")"), format!("chain 3 S {} {} S {}", hex(b"<"), val.req(), hex(b">")), format!("<{}>", val.render())),
+            4 => (format!("print({name} .. {})", other.0), format!("chain 2 {} {}", val.req(), other.1.req()), format!("{}{}", val.render(), other.1.render())),
+            5 => (format!("print({} .. {name})", other.0), format!("chain 2 {} {}", other.1.req(), val.req()), format!("{}{}", other.1.render(), val.render())),
+            _ => (format!("print({name} .. \"!\")"), format!("chain 2 {} S {}", val.req(), hex(b"!")), format!("{}!", val.render())),
+        }
+    };
+    let mut targets: Vec<(String, V)> = vec![("v".into(), v.clone()), ("w".into(), w.clone())];
+    for (i, d) in dyns.iter().enumerate() {
+        targets.push((format!("s{i}"), V::Dyn(i, d.clone())));
+    }
+    if with_struct {
+        targets.push(("h.name".into(), h_name.clone()));
+        targets.push(("h.items".into(), h_items.clone()));
+    }
+    // first every target by `println` (the route that makes the value itself the left operand of `..`) …
+    for (name, val) in &targets {
+        stmts.push((format!("println({name})"), format!("println {}", val.req()), val.render() + "\n"));
+    }
+    sep(&mut stmts);
+    // … then a random mix of routes, then everything once more
+    let n_mix = 4 + rng.below(6) as usize;
+    for _ in 0..n_mix {
+        let a = rng.below(targets.len() as u64) as usize;
+        let b = rng.below(targets.len() as u64) as usize;
+        let st = render_stmt(rng, &targets[a].0, &targets[a].1, (&targets[b].0, &targets[b].1));
+        stmts.push(st);
+        sep(&mut stmts);
+    }
+    for (name, val) in &targets {
+        stmts.push((format!("print(ToString.str({name}))"), format!("str {}", val.req()), val.render()));
+        sep(&mut stmts);
+        stmts.push((format!("println({name})"), format!("println {}", val.req()), val.render() + "\n"));
+    }
+    // the values are unchanged: equal to separately built equal values
+    for (i, d) in dyns.iter().enumerate() {
+        let r = format!("S {}", hex(d.as_bytes()));
+        stmts.push((format!("print(s{i} == t{i})"), format!("eq {r} {r}"), "true".into()));
+    }
+    if ty_has_equal(&tv) {
+        stmts.push(("print(v == v2)".into(), format!("eq {} {}", v.req(), v.req()), "true".into()));
+    }
+    if ty_has_equal(&tw) {
+        stmts.push(("print(w == w2)".into(), format!("eq {} {}", w.req(), w.req()), "true".into()));
+    }
+    // and the separately built twins render like the originals (they were never rendered before)
+    stmts.push(("println(v2)".into(), format!("println {}", v.req()), v.render() + "\n"));
+    stmts.push(("println(w2)".into(), format!("println {}", w.req()), w.render() + "\n"));
+
+    let mut expect = String::new();
+    for (a, _, e) in &stmts {
+        src.push_str(a);
+        src.push('\n');
+        expect.push_str(e);
+    }
+    let req = format!("render multi {}", stmts.iter().map(|s| s.1.clone()).collect::<Vec<_>>().join(" ; "));
+    let mut hist = vec!["purity:program"];
+    v.count(&mut hist);
+    w.count(&mut hist);
+    if with_struct { hist.push("purity:struct-fields"); }
+    fn dyn_indices(v: &V, out: &mut Vec<usize>) {
+        match v {
+            V::Dyn(i, _) => out.push(*i),
+            V::Arr(xs) | V::Tup(xs) => xs.iter().for_each(|x| dyn_indices(x, out)),
+            V::Some(x) | V::Ok(x) | V::Err(x) => dyn_indices(x, out),
+            _ => {}
+        }
+    }
+    let (mut iv, mut iw) = (vec![], vec![]);
+    dyn_indices(&v, &mut iv);
+    dyn_indices(&w, &mut iw);
+    if (0..n_dyn).any(|i| iv.iter().filter(|x| **x == i).count() >= 2) { hist.push("purity:same-string-several-times-in-one-value"); }
+    if iv.iter().any(|i| iw.contains(i)) { hist.push("purity:same-string-in-several-values"); }
+    Job { req, src, expect, hist, mode: "purity", depth: v.depth().max(w.depth()) }
 }
 
 struct Job { req: String, src: String, expect: String, hist: Vec<&'static str>, mode: &'static str, depth: usize }
@@ -273,6 +465,30 @@ fn main() {
             None
         };
         jobs.push(make_job(&ty, &v, mode, other));
+    }
+
+    // rendering must be observationally pure: run-time-built, shared strings, every value rendered repeatedly
+    // directed, minimal: one run-time-built string, shared, rendered twice
+    {
+        let d = |c: &str| V::Dyn(0, c.to_string());
+        let mini: Vec<(&str, &str, V)> = vec![
+            ("string", "s0", d("id7")),
+            ("array<string>", "[s0, s0]", V::Arr(vec![d("id7"), d("id7")])),
+            ("option<string>", "option.some(s0)", V::Some(Box::new(d("id7")))),
+            ("(string, int)", "(s0, 7)", V::Tup(vec![d("id7"), V::Int(7)])),
+            ("result<int, array<string>>", "result.err([s0, s0, s0])", V::Err(Box::new(V::Arr(vec![d("id7"), d("id7"), d("id7")])))),
+        ];
+        for (ty, e, val) in mini {
+            let src = format!("let s0 = \"id\" .. 7\nlet v: {ty} = {e}\nprintln(v)\nprintln(v)\nprint(\"<\" .. v .. \">\")\nprintln(s0)\nprintln(v)\n");
+            let r = val.render();
+            let expect = format!("{r}\n{r}\n<{r}>id7\n{r}\n");
+            let req = format!("render multi println {q} ; println {q} ; chain 3 S {} {q} S {} ; println S {} ; println {q}", hex(b"<"), hex(b">"), hex(b"id7"), q = val.req());
+            jobs.push(Job { req, src, expect, hist: vec!["purity:directed-minimal"], mode: "purity", depth: val.depth() });
+        }
+    }
+    let n_pure = if quick { 400 } else { 4000 };
+    for _ in 0..n_pure {
+        jobs.push(purity_job(&mut ctx.rng, max_depth.min(3)));
     }
 
     let srcs: Vec<&String> = jobs.iter().map(|j| &j.src).collect();
